@@ -1,0 +1,213 @@
+//! Verification hooks (compiled only with `--cfg fuellabs_sway_verif`).
+//!
+//! When the environment variable `VERIF_DUMP` names a file, records are appended to it as JSON
+//! lines `{"kind": .., "tid": .., "v": ..}`. Nothing here changes what the compiler produces,
+//! except `VERIF_ASM_NOOPT=1`, which makes `AbstractInstructionSet::optimize` the identity.
+use crate::asm_lang::{ControlFlowOp, JumpType, Label, Op, VirtualOp};
+use either::Either;
+use serde_json::{json, Value};
+use std::collections::HashMap;
+use std::io::Write;
+use std::sync::Mutex;
+
+static LOCK: Mutex<()> = Mutex::new(());
+
+pub(crate) fn dump_path() -> Option<String> {
+    std::env::var("VERIF_DUMP").ok().filter(|s| !s.is_empty())
+}
+
+pub(crate) fn wants(kind: &str) -> bool {
+    if dump_path().is_none() {
+        return false;
+    }
+    match std::env::var("VERIF_DUMP_KINDS") {
+        Ok(k) if !k.is_empty() => k.split(',').any(|x| x == kind),
+        _ => true,
+    }
+}
+
+pub(crate) fn emit(kind: &str, v: Value) {
+    let Some(path) = dump_path() else { return };
+    let tid = format!("{:?}", std::thread::current().id());
+    let line = json!({"kind": kind, "tid": tid, "v": v}).to_string();
+    let _g = LOCK.lock().unwrap_or_else(|e| e.into_inner());
+    if let Ok(mut f) = std::fs::OpenOptions::new().create(true).append(true).open(path) {
+        let _ = writeln!(f, "{line}");
+    }
+}
+
+pub(crate) fn asm_noopt() -> bool {
+    std::env::var("VERIF_ASM_NOOPT").map(|v| v == "1").unwrap_or(false)
+}
+
+fn op_kind(op: &Op) -> Value {
+    match &op.opcode {
+        Either::Left(v) => match v {
+            VirtualOp::MOVE(a, b) => json!({"k": "move", "dst": a.to_string(), "src": b.to_string()}),
+            VirtualOp::NOOP => json!({"k": "noop"}),
+            VirtualOp::MCP(_, _, len) => json!({"k": "mcp", "len": len.to_string()}),
+            VirtualOp::MCPI(_, _, imm) => json!({"k": "mcpi", "imm": imm.value()}),
+            VirtualOp::CFEI(r, imm) => json!({"k": "cfei", "reg": r.to_string(), "imm": imm.value()}),
+            VirtualOp::CFSI(r, imm) => json!({"k": "cfsi", "reg": r.to_string(), "imm": imm.value()}),
+            _ => json!({"k": "virt"}),
+        },
+        Either::Right(c) => match c {
+            ControlFlowOp::Label(l) => json!({"k": "label", "l": l.to_string()}),
+            ControlFlowOp::Comment => json!({"k": "comment"}),
+            ControlFlowOp::Jump { to, type_ } => match type_ {
+                JumpType::Unconditional => json!({"k": "jump", "to": to.to_string()}),
+                JumpType::NotZero(r) => json!({"k": "jnz", "to": to.to_string(), "cond": r.to_string()}),
+                JumpType::Call => json!({"k": "call", "to": to.to_string()}),
+            },
+            ControlFlowOp::ConfigurablesOffsetPlaceholder => json!({"k": "cfgoff"}),
+            ControlFlowOp::DataSectionOffsetPlaceholder => json!({"k": "dsoff"}),
+            ControlFlowOp::PushAll(l) => json!({"k": "pusha", "l": l.to_string()}),
+            ControlFlowOp::PopAll(l) => json!({"k": "popa", "l": l.to_string()}),
+            ControlFlowOp::JumpToAddr(r) => json!({"k": "jmpaddr", "reg": r.to_string()}),
+            ControlFlowOp::ReturnFromCall { .. } => json!({"k": "ret"}),
+        },
+    }
+}
+
+/// One JSON object per op: opcode text (no comment), use/def/def-const register sets exactly as
+/// the optimiser and allocator see them, side-effect flag, successors.
+pub(crate) fn ops_json(ops: &[Op]) -> Value {
+    let mut label_to_index: HashMap<Label, usize> = HashMap::new();
+    let mut has_jmpaddr = false;
+    for (idx, op) in ops.iter().enumerate() {
+        match &op.opcode {
+            Either::Right(ControlFlowOp::Label(l)) => {
+                label_to_index.insert(*l, idx);
+            }
+            Either::Right(ControlFlowOp::JumpToAddr(_)) => has_jmpaddr = true,
+            _ => {}
+        }
+    }
+    let all_targets_known = ops.iter().all(|op| match &op.opcode {
+        Either::Right(ControlFlowOp::Jump { to, .. }) => label_to_index.contains_key(to),
+        _ => true,
+    });
+    let arr: Vec<Value> = ops
+        .iter()
+        .enumerate()
+        .map(|(idx, op)| {
+            let text = op.opcode.as_ref().either(|l| l.to_string(), |r| r.to_string());
+            let se = match &op.opcode {
+                Either::Left(v) => v.has_side_effect(),
+                Either::Right(_) => true,
+            };
+            let succ: Value = if all_targets_known {
+                json!(op.successors(idx, ops, &label_to_index))
+            } else {
+                Value::Null
+            };
+            json!({
+                "t": text,
+                "kind": op_kind(op),
+                "u": op.use_registers().iter().map(|r| r.to_string()).collect::<Vec<_>>(),
+                "d": op.def_registers().iter().map(|r| r.to_string()).collect::<Vec<_>>(),
+                "c": op.def_const_registers().iter().map(|r| r.to_string()).collect::<Vec<_>>(),
+                "se": se,
+                "succ": succ,
+            })
+        })
+        .collect();
+    json!({"ops": arr, "has_jmpaddr": has_jmpaddr})
+}
+
+pub(crate) fn asm_pass(kind: &str, pass: &str, function: &Option<(String, bool)>, ops: &[Op]) {
+    if !wants("asm_pass") {
+        return;
+    }
+    emit(
+        "asm_pass",
+        json!({"at": kind, "pass": pass, "function": function.as_ref().map(|f| f.0.clone()), "ops": ops_json(ops)}),
+    );
+}
+
+pub(crate) fn alloc_spill(
+    before: &[Op],
+    spills: &rustc_hash::FxHashSet<crate::asm_lang::VirtualRegister>,
+    after: &[Op],
+) {
+    if !wants("alloc") {
+        return;
+    }
+    let mut sp: Vec<String> = spills.iter().map(|r| r.to_string()).collect();
+    sp.sort();
+    emit("alloc_spill", json!({"before": ops_json(before), "spills": sp, "after": ops_json(after)}));
+}
+
+pub(crate) fn alloc_coalesce(
+    map: &indexmap::IndexMap<&crate::asm_lang::VirtualRegister, &crate::asm_lang::VirtualRegister>,
+) {
+    if !wants("alloc") {
+        return;
+    }
+    let m: Vec<(String, String)> = map.iter().map(|(k, v)| (k.to_string(), v.to_string())).collect();
+    emit("alloc_coalesce", json!({"map": m}));
+}
+
+/// `input`: the ops given to the last (successful) colouring attempt; `coalesced`: the ops after
+/// move coalescing, still over virtual registers; `pool`: the final assignment; `allocated`: the result.
+pub(crate) fn alloc_result(
+    input: &[Op],
+    coalesced: &[Op],
+    pool: &crate::asm_generation::fuel::register_allocator::RegisterPool,
+    allocated: &[crate::asm_lang::AllocatedAbstractOp],
+) {
+    if !wants("alloc") {
+        return;
+    }
+    let mut regs = std::collections::BTreeSet::new();
+    for op in coalesced {
+        for r in op.registers() {
+            if r.is_virtual() {
+                regs.insert(r.clone());
+            }
+        }
+    }
+    let assignment: Vec<(String, Option<String>)> = regs
+        .iter()
+        .map(|r| (r.to_string(), pool.get_register(r).map(|a| a.to_string())))
+        .collect();
+    let alloc_text: Vec<String> = allocated
+        .iter()
+        .map(|op| op.opcode.as_ref().either(|l| l.to_string(), |r| r.to_string()))
+        .collect();
+    emit(
+        "alloc_result",
+        json!({"input": ops_json(input), "coalesced": ops_json(coalesced), "assignment": assignment, "allocated": alloc_text}),
+    );
+}
+
+pub(crate) fn data_section_dump(
+    ds: &crate::asm_generation::fuel::data_section::DataSection,
+    op_sizes: Vec<u64>,
+    offset_to_data_section: u64,
+    named_offsets: &std::collections::BTreeMap<String, u64>,
+) {
+    if !wants("data_section") {
+        return;
+    }
+    let n = ds.num_entries();
+    let offsets: Vec<usize> = (0..=n).map(|i| ds.absolute_idx_to_offset(i)).collect();
+    let entry_bytes: Vec<String> = ds
+        .iter_all_entries()
+        .map(|e| e.to_bytes().iter().map(|b| format!("{b:02x}")).collect::<String>())
+        .collect();
+    let ser: String = ds.serialize_to_bytes().iter().map(|b| format!("{b:02x}")).collect();
+    emit(
+        "data_section",
+        json!({
+            "non_configurables": serde_json::to_value(&ds.non_configurables).unwrap_or(Value::Null),
+            "configurables": serde_json::to_value(&ds.configurables).unwrap_or(Value::Null),
+            "entry_offsets": offsets,
+            "entry_bytes": entry_bytes,
+            "serialized": ser,
+            "op_sizes": op_sizes,
+            "offset_to_data_section": offset_to_data_section,
+            "named_offsets": named_offsets,
+        }),
+    );
+}
